@@ -211,27 +211,36 @@ let () = read_lines (fun line ->
     | ["shutdown"; id; l; mx; k; closeat; late; after; recvs] ->
       (* the schedule the harness forces, then Run receives <recvs> calls, takes the close branch and drains *)
       let i = int_of_string in
-      let cfg = { M.sd_cap = nat_of_int (i k); M.sd_linger_pos = (l = "1"); M.sd_max = nat_of_int (i mx) } in
+      let cfg = { M.sd_cap = nat_of_int (i k); M.sd_linger_pos = (l = "1"); M.sd_max = nat_of_int (i mx);
+                  M.sd_wait_for_adders = true } in
       let next = ref 0 in
       let fresh () = let c = !next in incr next; n_of_int c in
       let evs = ref [] in
       let push e = evs := e :: !evs in
+      (* one Add as far as it gets: an inapplicable step is a no-op (a parked sender finishes after it is received) *)
+      let add () = let c = fresh () in
+        List.iter push [M.EAddStart c; M.EAddCheck c; M.EAddSend c; M.EAddFinish c; M.EAddFail c] in
+      let finish_all () = for c = 0 to !next - 1 do push (M.EAddFinish (n_of_int c)) done in
       let pre = if l = "1" then i mx else 1 in
-      for _ = 1 to pre do let c = fresh () in push (M.EAddCheck c); push (M.EAddSend c); push M.ERunRecv done;
+      for _ = 1 to pre do add (); push M.ERunRecv done;
       if i closeat = 0 then push M.EClose;
-      for _ = 1 to i k do let c = fresh () in push (M.EAddCheck c); push (M.EAddSend c) done;
+      for _ = 1 to i k do add () done;
       if i closeat = 1 then push M.EClose;
-      for _ = 1 to i late do let c = fresh () in push (M.EAddCheck c); push (M.EAddSend c) done;
+      for _ = 1 to i late do add () done;
       if i closeat = 2 then push M.EClose;
-      for _ = 1 to i after do push (M.EAddCheck (fresh ())) done;
+      for _ = 1 to i after do add () done;
       push M.EClose;
       for _ = 1 to i recvs do push M.ERunRecv done;
       push M.ERunClose;
       for _ = 1 to (i k + i late + 2) do push M.EDrainOne done;
+      push M.EDrainEnd;                       (* adding <> 0 while parked senders have not decremented: the loop goes on *)
+      finish_all ();
+      for _ = 1 to (i late + 2) do push M.EDrainOne done;
       push M.EDrainEnd;
-      let (_, o) = M.sd_run cfg M.sd_init (List.rev !evs) in
+      let (st, o) = M.sd_run cfg M.sd_init (List.rev !evs) in
       let count c = List.length (List.filter (fun (x, _) -> x = c) o) in
-      Printf.printf "%s %s\n" id (join_or_dash "," (List.init !next (fun c -> string_of_int (count (n_of_int c)))))
+      let tail = if st.M.sd_run_done then "" else ",RUN-NOT-DONE" in
+      Printf.printf "%s %s%s\n" id (join_or_dash "," (List.init !next (fun c -> string_of_int (count (n_of_int c))))) tail
     | [] | [""] -> ()
     | _ -> Printf.printf "?? bad line: %s\n" line
   with e -> Printf.printf "?? %s on line: %s\n" (Printexc.to_string e) line)
